@@ -14,6 +14,14 @@ CLAIMED = {
    technique="static analysis: exhaustive table evaluation of the init-time registry from source literals (go/types constants) + pinned reference comparison",
    text="Finite and exhaustive: every one of the 292 tags, 601 enumeration values and 22 mask flags registered by the init functions is evaluated from the source literals and shown unique in both directions within its scope, lexically safe for XML/JSON/text, identical to the pinned KMIP 1.0-1.4 registry, wired to its own tag in MarshalText/UnmarshalText, and registered only from init. A proof over the static registry model, not over sampled lookups.",
    ref="§4 C17"),
+ "C05": dict(level="other",
+   technique="static analysis: struct-tag plan model vs reviewed version table; SSA path check of the two gating wrappers; who-may-write rule on the version state",
+   text="Decides the structural necessary conditions of version gating for every struct type of the library at once: the 61 version annotations equal the reviewed specification table (a wrong, missing or extra annotation is reported per field), the encoder wrapper runs the field coder exactly when the header version is in range and the decoder's only skip is under (!inRange and tag mismatch) on every path of the wrapper, nested coders share the parent's version state, the version is written only by the set-version field wrapper and reset by Clear, and the version-setting header is coded first. Not a run over messages: the arithmetic of range containment and the emitted values are not decided.",
+   ref="§4 C05"),
+ "C06": dict(level="other",
+   technique="static analysis: exhaustive table checks of the operation/object/attribute registries (go/types interface satisfaction, SSA constant returns) + dominance checks in the four hand-written payload decoders",
+   text="Exhaustive over the three registries (27 operations x 2 directions, 9 object types, 50 attributes): each registered type implements the interface the reflective constructor asserts, reports the code it is registered under, occupies one slot, and has the TTLV kind of the hand-written specification table; the batch-item decoders pick the payload constructor of their own direction from their own decoded Operation; unknown operations/attributes fall back to the opaque container and the unknown-object error is checked before the object is decoded at every call site. Byte-identity of opaque re-encoding is value-level and not decided.",
+   ref="§4 C06"),
 }
 
 PENDING_REASON = "check not built yet in this revision of /verif (static rules are designed in DESIGN.md §4); not claimed until its rule set is implemented and silent on the repaired tree"
